@@ -170,7 +170,7 @@ func sceneGenesis(o ReqOpts) {
 	chk("C19 C15", vf.Store(ctx2).Has(types.GetOwnerServiceBindingKey(s.Owner, Svc+"x", s.Provs[0])), "owner-index-of-second-binding-rebuilt-on-import")
 	for i := 0; i < s.N; i++ {
 		p := k2.GetPricing(ctx2, Svc, s.Provs[i])
-		chk("C19 C15", p.Price.AmountOf(Denom).Equal(s.Binds[i].Pricing.Price.AmountOf(Denom)), "pricing-rebuilt-on-import")
+		chk("C19 C15 C14 C07 C06", p.Price.AmountOf(Denom).Equal(s.Binds[i].Pricing.Price.AmountOf(Denom)), "pricing-rebuilt-on-import")
 		own, ok := k2.GetOwner(ctx2, s.Provs[i])
 		chk("C19 C15 C05", vf.And(ok, own.Equals(s.Owner)), "ownership-rebuilt-on-import")
 		chk("C19 C15 C01 C13 C18", vf.All(vf.Store(ctx2).Has(types.GetOwnerServiceBindingKey(s.Owner, Svc, s.Provs[i])), vf.Store(ctx2).Has(types.GetOwnerProviderKey(s.Owner, s.Provs[i])), !vf.Store(ctx2).Has(types.GetOwnerProviderKey(s.Provs[i], s.Owner))), "owner-indexes-rebuilt-on-import")
